@@ -115,7 +115,7 @@ def _rng_sensitive(rng):
     for _ in range(n):
         decks.append((h, rng.choice([5, 10, 15]), rng.choice([0.5, 0.7, 0.9])))
         h += rng.randint(40, 120)
-    return {'rows': decks_rows(rng, rng.choice([2, 3, 4]), rng.randint(25, 40), decks),
+    return {'rows': decks_rows(rng, rng.choice([1, 2, 3]), rng.randint(22, 32), decks),
             'prms': {'MIN_SEP_VALS': [10, 10],
                      'LAYERING_PRMS': {'gmm_kwargs': {'delta_mul_gain': 1.0}}}}
 
